@@ -436,13 +436,13 @@ def check_export(c, d, res):
     hrefs = {m["attrs"]["href"] for n in nodes for m in n.get("marks") or [] if m["type"] == "link"}
     got_hrefs = {a.get("href") for a in root.iter("a")}
     if hrefs != got_hrefs:
-        res.violate("c19.export.attr-escaping", {**case, "html": html}, sorted(map(str, got_hrefs)), sorted(hrefs), size=size)
-    srcs = sorted((n["attrs"]["src"], n["attrs"].get("title")) for n in nodes if n["type"] == "image")
-    got_srcs = sorted((i.get("src"), i.get("title")) for i in root.iter("img"))
+        res.violate("c19.export.attr-escaping", {**case, "html": html}, sorted(map(str, got_hrefs)), sorted(map(str, hrefs)), size=size)
+    srcs = sorted(((n["attrs"]["src"], n["attrs"].get("title")) for n in nodes if n["type"] == "image"), key=repr)
+    got_srcs = sorted(((i.get("src"), i.get("title")) for i in root.iter("img")), key=repr)
     if srcs != got_srcs:
         res.violate("c19.export.attr-escaping", {**case, "html": html}, got_srcs, srcs, size=size)
     orders = sorted(str(n["attrs"]["order"]) for n in nodes if n["type"] == "ordered_list" and n["attrs"]["order"] != 1)
-    got_orders = sorted(o.get("start") for o in root.iter("ol") if o.get("start") is not None)
+    got_orders = sorted(str(o.get("start")) for o in root.iter("ol") if o.get("start") is not None)
     if orders != got_orders:
         res.violate("c19.export.attr-value", {**case, "html": html}, got_orders, orders, size=size)
     # round trip
